@@ -83,6 +83,17 @@ func zzKindRequest(kind int, origin []string, hasO bool) *zzRequest {
 	return zzMkRequest("OPTIONS", origin, []string{"PUT"}, nil, nil, hasO, true, false, false)
 }
 
+// zzLongPortOrigin: an allowed scheme and host followed by a port part of up
+// to 22 arbitrary bytes — long enough for a decimal that wraps a 64-bit
+// accumulator (2^64 has 20 digits), which the short symbolic origins of the
+// scenario cannot reach.
+func zzLongPortOrigin() string {
+	const pre = "https://a.b:"
+	v := zzString(len(pre) + 22)
+	zzAssume(len(v) >= len(pre) && v[:len(pre)] == pre)
+	return v
+}
+
 func zzLiteralOrigin() []string {
 	if zzChoose(2) == 0 {
 		return []string{zzAllowedOrigin}
@@ -108,6 +119,9 @@ func zzDrawScenario(enabled []int) zzScen {
 			maxO = 17
 		}
 		o, hasO := zzValues(maxO, true)
+		if zzChoose(4) == 3 {
+			o, hasO = []string{zzLongPortOrigin()}, true
+		}
 		s.q = zzKindRequest(zzChoose(3), o, hasO)
 		if thorough {
 			s.debug = zzBool()
@@ -154,11 +168,13 @@ func zzDrawScenario(enabled []int) zzScen {
 		s.c.cfg.Credentialed = zzBool()
 		var acrpn []string
 		hasP := true
-		switch zzChoose(3) {
+		switch zzChoose(4) {
 		case 0:
 			hasP = false
 		case 1:
 			acrpn = []string{zzString(5)}
+		case 2:
+			acrpn = []string{} // the key is present, with no field line behind it
 		default:
 			acrpn = []string{"true", zzString(2)}
 		}
